@@ -136,7 +136,7 @@ CFG = {
                   "states the model visits and verifies on every entry that fee_for_input is the difference of two min_fee()); premises: the "
                   "builder's present inputs are a map (one entry per outpoint) and regular inputs, values well formed (sorted maps, quantities "
                   "< 2^64: what the public API builds); hook H1 (scripted gen_range) + extraction (ExtrOcamlBasic) + OCaml/Rust glue. No axioms.",
-    "theorems": ["C08_sound", "C08_sound_min_fee", "C08_sound_fee_model", "C08_largest_first_order", "C08_largest_first_minimal", "C08_largest_first_complete",
+    "theorems": ["C08_sound", "C08_sound_min_fee", "C08_sound_fee_model", "C08_largest_first_order", "C08_largest_first_minimal", "C08_largest_first_complete", "C08_lfma_complete",
                  "C08_swap_bookkeeping_refuted", "C08_duplicate_outputs_refuted", "C08_prestep_fee_refuted",
                  "C08_improve_overflow_refuted", "C08_offered_overlap_refuted", "C08_burn_not_covered_refuted",
                  "C08_fee_placeholder_refuted", "C08_judge_sound"],
